@@ -206,7 +206,9 @@ def gen_hist(r, k):
         if v["periodic"]:
             v["P"] = v["w"] * v["nx"]
             v["c"] = V.dyadic(r, -3, 3, bits=2)
-            v["lower"] = v["c"] - v["P"] / 2
+            # the grid spans the period; it starts at the lower end of the variable's wrapping interval or a few bins
+            # away from it (then part of the wrapped values lie outside the grid: no bin)
+            v["lower"] = v["c"] - v["P"] / 2 + r.choice([0, 0, 0, 1, -1, 2]) * v["w"]
         else:
             v["lower"] = V.dyadic(r, -4, 4, bits=3)
         v["upper"] = v["lower"] + v["w"] * v["nx"]
@@ -238,7 +240,22 @@ def gen_hist(r, k):
             boundary = "r"
             zs = list(events[-1][1])   # a restart re-evaluates the configuration the state was written at
         events.append((boundary, zs))
-    return {"vars": vars_, "stepzero": stepzero, "events": events, "id": k}
+    c = {"vars": vars_, "stepzero": stepzero, "events": events, "id": k}
+    # absolute step numbers beyond 32 and 53 bits; a second histogram on the same variables that is deleted on the way;
+    # a configuration that is rejected in the middle of the session
+    c["step0"] = r.choice([0, 0, 2 ** 31 - 3, 2 ** 32 + 5, 2 ** 53 - 2, 2 ** 62])
+    c["second"] = r.choice([None, None, "first", "last"])
+    c["delete_at"] = r.randint(1, nsteps - 1)
+    c["bad_config_at"] = r.randint(1, nsteps - 1) if r.random() < 0.3 else None
+    return c
+
+
+def hist_cfg_without_h2(cfg, h2):
+    """the configuration block without the lines of the second histogram (contiguous sub-list h2)"""
+    for k in range(len(cfg) - len(h2) + 1):
+        if cfg[k:k + len(h2)] == h2:
+            return cfg[:k] + cfg[k + len(h2):]
+    return cfg
 
 
 def hist_scenario(c, statefile):
@@ -255,6 +272,10 @@ def hist_scenario(c, statefile):
         if v["periodic"]:
             L += ["    period %r" % v["P"], "    wrapAround %r" % v["c"]]
         L += ["  }", "}"]
+    h2 = ["histogram {", "  name h2", "  colvars " + " ".join("v%d" % d for d in range(len(c["vars"]))), "  outputFile none",
+          "  histogramGrid {", "    width " + " ".join("%r" % (v["w"] * 2) for v in c["vars"]), "  }", "}"]
+    if c.get("second") == "first":
+        L += h2
     L += ["histogram {", "  name h", "  colvars " + " ".join("v%d" % d for d in range(len(c["vars"])))]
     if c["stepzero"]:
         L += ["  stepZeroData on"]
@@ -264,17 +285,30 @@ def hist_scenario(c, statefile):
               "    lowerBoundary " + " ".join("%r" % v["lower"] for v in c["vars"]),
               "    upperBoundary " + " ".join("%r" % v["upper"] for v in c["vars"]),
               "    width " + " ".join("%r" % v["w"] for v in c["vars"]), "  }"]
-    L += ["}", "EOF", "show atomf 0 energy 0 bias 0"]
+    L += ["}"]
+    if c.get("second") == "last":
+        L += h2
+    L += ["EOF", "show atomf 0 energy 0 bias 0"]
     cfg = L[L.index("config EOF"):L.index("EOF") + 1]
+    if c.get("step0"):
+        L.append("setstep %d" % c["step0"])
     nrest = 0
-    for boundary, zs in c["events"]:
+    deleted = not c.get("second")
+    for ne, (boundary, zs) in enumerate(c["events"]):
         for d, z in enumerate(zs):
             L.append("pos %d 0 0 %s" % (d + 1, V.hexf(z)))
+        if c.get("second") and not deleted and ne == c.get("delete_at"):
+            L.append("script cv bias h2 delete")
+            deleted = True
+        if c.get("bad_config_at") == ne:
+            L += ["config EOF", "histogram {", "  name hbad", "  colvars v0", "  gatherVectorColvars on", "}", "EOF"]
         if boundary == "r":
             nrest += 1
             rf = "%s.r%d" % (statefile, nrest)
-            # formatted and unformatted state files alternate (histogram write_state_data/read_state_data on a memory_stream)
-            L += ["save %s %s" % ("binary" if (c["id"] + nrest) % 2 else "text", rf), "fresh"] + cfg + ["load %s" % rf]
+            # the state travels as a formatted file, an unformatted file, an unformatted memory buffer or a formatted string
+            how = (c["id"] + nrest) % 4
+            L += ["save %s %s" % ("binary" if how in (1, 2) else "text", rf), "fresh"] + (cfg if not deleted else hist_cfg_without_h2(cfg, h2)) + \
+                 [("load %s", "load %s", "loadbuf %s", "loadstr %s")[how] % rf]
         elif boundary:
             L.append("runboundary")
         L.append("step")
@@ -758,6 +792,14 @@ def check(run):
         if "CONFIG err=ok" not in o or not os.path.exists(sf):
             run.mismatch("hist:config", {"scenario": open(sc).read()}, o[-300:], "accepted")
             continue
+        # every auxiliary command of the scenario must have done what it says (loads, deletion of the second histogram;
+        # the rejected configuration must be rejected)
+        import re as _re
+        aux = [l for l in o.split("\n") if l.startswith("UNKNOWN-COMMAND") or (l.startswith("LOAD") and "err=ok" not in l)
+               or (l.startswith("SCRIPT") and "err=ok" not in l) or (l.startswith("SAVE") and "err=ok" not in l)]
+        nbad = sum(1 for l in o.split("\n") if l.startswith("CONFIG err=") and "err=ok" not in l)
+        if aux or nbad != (1 if c.get("bad_config_at") is not None else 0):
+            run.mismatch("hist:scenario-commands", {"scenario": open(sc).read()}, (aux + [l for l in o.split("\n") if l.startswith("CONFIG")])[:6], "all ok")
         got = parse_hist_state(sf)
         counted = sum(exp)
         rejected = sum(1 for b, _ in c["events"]) - counted
